@@ -50,6 +50,7 @@ class Body:
         self.is_async = is_async
         self.locals = {}                  # name -> slot
         self.kwlocals = set()
+        self.purelocals = set()           # locals holding a value of the wrapper's own (datetime, timedelta)
         self.tmp = 0
 
     def bad(self, node, why):
@@ -75,6 +76,58 @@ class Body:
         if isinstance(e, ast.FormattedValue):
             return self.fmt_ok(e.value) and (e.format_spec is None or self.fmt_ok(e.format_spec))
         return False
+
+    def fmt_items(self, exprs, node):
+        """what evaluating these message expressions evaluates, left to right, as a Coq `list fitem`: reads of
+        <callee>.__name__ / __qualname__ (FName), the text of args / kwargs / a local / a factory parameter
+        (FArgs / FKwargs / FVal), things of the wrapper's own that cannot fail (FOwn).  Anything else fails closed."""
+        out = []
+
+        def go(e):
+            if isinstance(e, ast.Constant):
+                return
+            if isinstance(e, ast.JoinedStr):
+                for v in e.values:
+                    go(v)
+                return
+            if isinstance(e, ast.FormattedValue):
+                go(e.value)
+                if e.format_spec is not None:
+                    go(e.format_spec)
+                return
+            if same(e, 'datetime.now()'):
+                out.append('FOwn')
+                return
+            if isinstance(e, ast.Name):
+                if e.id == 'args':
+                    out.append('FArgs')
+                elif e.id == 'kwargs':
+                    out.append('FKwargs')
+                elif e.id in self.purelocals:
+                    out.append('FOwn')
+                elif (e.id in self.locals and e.id not in self.kwlocals) or e.id in self.params:
+                    out.append(f'FVal ({self.expr(e)})')
+                else:
+                    self.bad(node, f'message formats the name {e.id}, which is neither args/kwargs, a local nor a factory parameter')
+                return
+            if isinstance(e, ast.Attribute) and isinstance(e.value, ast.Name):
+                if e.value.id in self.callees and e.attr in ('__name__', '__qualname__'):
+                    out.append(f'FName {self.callees[e.value.id]}')
+                    return
+                if e.value.id == self.wname and e.attr == 'num_calls':
+                    out.append('FOwn')
+                    return
+            # getattr(func, '__name__', <constant or repr(func)>): a read that cannot fail
+            if isinstance(e, ast.Call) and is_name(e.func, 'getattr') and len(e.args) == 3 and not e.keywords \
+                    and isinstance(e.args[0], ast.Name) and e.args[0].id in self.callees \
+                    and isinstance(e.args[1], ast.Constant) and e.args[1].value in ('__name__', '__qualname__') \
+                    and (isinstance(e.args[2], ast.Constant) or same(e.args[2], f'repr({e.args[0].id})')):
+                out.append('FOwn')
+                return
+            self.bad(node, f'message expression outside the whitelist: {dump(e)[:80]}')
+        for x in exprs:
+            go(x)
+        return coq_list(out)
 
     def pure_ok(self, e):
         """effect-free value computed by the wrapper itself (never a callee, never args/kwargs)"""
@@ -219,15 +272,16 @@ class Body:
             if isinstance(v, ast.Constant) and isinstance(v.value, str):
                 return 'WSkip'
             if isinstance(v, ast.Call) and is_name(v.func, 'print'):
-                if not all(self.fmt_ok(a) for a in v.args) or v.keywords:
-                    self.bad(s, 'print argument is more than formatting of names')
-                return 'WPrint'
+                if v.keywords:
+                    self.bad(s, 'print with keyword arguments')
+                return f'WPrint {self.fmt_items(v.args, s)}'
             if isinstance(v, ast.Call) and is_name(v.func, '_raise_warning'):
                 kw = {k.arg: k.value for k in v.keywords}
-                if v.args or set(kw) != {'msg', 'category'} or not self.fmt_ok(kw['msg']) or not is_name(kw['category']):
+                if v.args or set(kw) != {'msg', 'category'} or not is_name(kw['category']):
                     self.bad(s, '_raise_warning call changed')
                 cat = kw['category'].id
-                return 'WWarn WDeprecation' if cat == 'DeprecationWarning' else f'WWarn (WOtherCat {coq_string(cat)})'
+                items = self.fmt_items([kw['msg']], s)
+                return f'WWarn WDeprecation {items}' if cat == 'DeprecationWarning' else f'WWarn (WOtherCat {coq_string(cat)}) {items}'
             c = self.call_stmt(None, v)
             if c:
                 return c
@@ -243,6 +297,7 @@ class Body:
             if c:
                 return c
             if self.pure_ok(s.value):
+                self.purelocals.add(name)
                 return f'WPure {self.slot(name)}%nat'
             if isinstance(s.value, ast.Name) or (isinstance(s.value, ast.Constant) and s.value.value is None):
                 return f'WAssign {self.slot(name)}%nat ({self.expr(s.value)})'
@@ -263,9 +318,10 @@ class Body:
             cls = s.exc.func if isinstance(s.exc, ast.Call) else s.exc
             if s.cause is not None or not (isinstance(cls, ast.Name) and cls.id in EXC):
                 self.bad(s, 'raise of an unknown class')
-            if isinstance(s.exc, ast.Call) and not all(self.fmt_ok(a) for a in s.exc.args):
-                self.bad(s, 'exception argument is more than formatting of names')
-            return f'WRaise {cpath(EXC[cls.id])}'
+            if isinstance(s.exc, ast.Call) and s.exc.keywords:
+                self.bad(s, 'exception constructed with keyword arguments')
+            items = self.fmt_items(s.exc.args, s) if isinstance(s.exc, ast.Call) else '[]'
+            return f'WRaise {cpath(EXC[cls.id])} {items}'
         if isinstance(s, ast.Return):
             v = s.value
             if v is not None and (isinstance(v, ast.Await) or isinstance(v, ast.Call)):
@@ -405,7 +461,7 @@ def translate_deco(name, rel, path, mode):
         elif i == 0 and is_guard(st, fparam):
             pre.append('DGuardEnabled')
         elif name == 'overrides' and same_stmt(st, f'name = {fparam}.__name__'):
-            pass
+            pre.append('DReadName')
         elif name == 'overrides' and isinstance(st, ast.If) and not st.orelse and len(st.body) == 1 \
                 and isinstance(st.body[0], ast.Raise) and isinstance(st.body[0].exc, ast.Call) \
                 and is_name(st.body[0].exc.func) and st.body[0].exc.func.id in EXC:
